@@ -111,6 +111,11 @@ def verify_function(ctx, key, c=None, only_case=None):
               for i, r in enumerate(c.requires):
                   f = ex.spec_formula(r, dict(env), st)
                   st.assume(_b(f))
+              for gname, gtext in (c.ghost.get("defs") or {}).items():
+                  # ghost definitions: spec values computed once at entry and visible (read-only) to every clause
+                  gv = ex.spec_value(gtext, dict(env), st)
+                  env[gname] = gv
+                  st.env[gname] = gv
               for ln in c.lemmas:
                   if isinstance(ln, tuple):
                       ln, b = ln
